@@ -6,6 +6,10 @@
      square, sine, noise_simplex built from the same step source.  [sintab] is the libm oracle
      as data: pairs (bits of x, bits of sin x) computed by the platform's libm for exactly the
      arguments the model asks for (a missing entry reads as NaN and fails the case).
+   CHz rate n op order top topv a b : rate(rate).hz(control), control built from dasp_signal's gen/gen_mut
+     (frames a), from_iter (frames b, finite) and add_amp / mul_amp / zip_map(|x, y| x * 0.5 + y) /
+     scale_amp / offset_amp as encoded in harness/src/bin/c17.rs; n frames of phase, saw, square; the
+     closure and iterator call counters after every phase frame and at the end of each run.
    CNoise seed n c : n frames of noise(seed); a clone taken after c frames and run to n; a
      restart of noise(seed) for c frames. *)
 Require Import Floats.SpecFloat.
@@ -17,7 +21,8 @@ Open Scope Z_scope.
 
 Inductive case :=
 | COsc (rate mode : Z) (hz : list Z) (n : Z) (sintab : list (Z * Z))
-| CNoise (seed n clone_at : Z).
+| CNoise (seed n clone_at : Z)
+| CHz (rate n op order top topv : Z) (a b : list Z).
 
 Notation F := NumF64.
 Definition fb (z : Z) : f64 := F64.of_bits z.
@@ -59,6 +64,27 @@ Definition osc_model (rate mode : Z) (hz : list Z) (n : Z) (sintab : list (Z * Z
    6 :: (match mode with 0 => [] | _ => pulls_trace (phase_new F s) k end);
    7 :: (match mode with 0 => [] | _ => [c1; c2; c3; c4; c5] end)].
 
+(* zip_map closure of the harness: |x, y| x * 0.5 + y *)
+Definition zip_f (x y : f64) : f64 := F64.add (F64.mul x (nhalf F)) y.
+
+Definition hz_model (rate n op order top topv : Z) (a b : list Z) : list (list Z) :=
+  let sh : ctl_shape F := match op with 0 => CFin | 4 => CGen | 1 => CAdd | 2 => CMul | _ => @CZip F zip_f end in
+  let tp : ctl_top F := match top with 1 => @TScale F (fb topv) | 2 => @TOffset F (fb topv) | _ => TNone end in
+  let ctl := ctl_frame F sh (negb (order =? 0)) tp (map fb a) (map fb b) in
+  let s := hz_src F (fb rate) ctl in
+  let k := Z.to_nat n in
+  let m := length b in
+  let '(ph, c1) := outs (next_phase F) s k in
+  let '(sw, c2) := outs (saw_next F) s k in
+  let '(sq, c3) := outs (square_next F) s k in
+  let tr := map Z.to_nat (pulls_trace (phase_new F s) k) in
+  let fin := map Z.to_nat [c1; c2; c3] in
+  [1 :: ph; 2 :: sw; 3 :: sq;
+   6 :: map (fun p => Z.of_nat (gen_calls F sh p)) tr;
+   8 :: map (fun p => Z.of_nat (iter_calls F sh m p)) tr;
+   7 :: map (fun p => Z.of_nat (gen_calls F sh p)) fin;
+   10 :: map (fun p => Z.of_nat (iter_calls F sh m p)) fin].
+
 Fixpoint noise_run (seed : Z) (n : nat) : list Z * Z :=
   match n with
   | O => ([], seed)
@@ -74,6 +100,7 @@ Definition run_case (c : case) : list (list Z) :=
   match c with
   | COsc rate mode hz n tab => osc_model rate mode hz n tab
   | CNoise seed n c => noise_model seed n c
+  | CHz rate n op order top topv a b => hz_model rate n op order top topv a b
   end.
 
 (* distance in units in the last place between two bit patterns (ordered-integer encoding) *)
